@@ -106,6 +106,7 @@ FAMILIES = {
         cfgs=[CFG0, dict(CFG0, addReason=False), dict(CFG0, addCounts=True), dict(CFG0, addSpanCount=True),
               dict(CFG0, addCounts=True, addSpanCount=True), dict(CFG0, attrs="env=prod"), dict(CFG0, addHost=True)],
         init=CFG0, eject=[], stress=[dict(keep=True, rate=5)],
+        pairs=[(dict(CFG0, attrs="env=prod"), dict(CFG0, addHost=True)), (dict(CFG0, addHost=True), CFG0), (dict(CFG0, addHost=True), dict(CFG0, addCounts=True))],
         consts=dict(TraceTimeout=2, SendDelay=1, SpanLimit=0, MaxExpired=0),
         thorough=dict(MaxSpans=3, MaxNow=2, ArriveUntil=0), quick=dict(MaxSpans=2, MaxNow=2, ArriveUntil=0)),
     # C07: ejection
@@ -137,6 +138,7 @@ def main():
                  "mc_Cfgs == {" + ", ".join(tla(c) for c in f["cfgs"]) + "}",
                  f"mc_Cfg0 == {tla(f['init'])}",
                  "mc_Stress == {" + ", ".join(tla(s) for s in f["stress"]) + "}",
+                 "mc_ReloadPairs == {" + ", ".join("<<" + tla(a) + ", " + tla(b) + ">>" for a, b in f.get("pairs", [])) + "}",
                  "=" * 77, ""]
         open(f"{mod}.tla", "w").write("\n".join(lines))
         for tier, suffix in (("thorough", ""), ("quick", "_q")):
@@ -145,7 +147,7 @@ def main():
             c.setdefault("ArriveUntil", c["MaxNow"])
             cfg = ["SPECIFICATION Spec", "CONSTANTS",
                    "  Traces <- mc_Traces", "  WorkerOf <- mc_WorkerOf", "  Verdicts <- mc_Verdicts", "  Reason <- mc_Reason",
-                   "  SpanShapes <- mc_Shapes", "  Cfgs <- mc_Cfgs", "  InitCfg <- mc_Cfg0", "  StressRates <- mc_Stress",
+                   "  SpanShapes <- mc_Shapes", "  Cfgs <- mc_Cfgs", "  InitCfg <- mc_Cfg0", "  StressRates <- mc_Stress", "  ReloadPairs <- mc_ReloadPairs",
                    "  EjectShares = {" + ", ".join(str(x) for x in f["eject"]) + "}",
                    "  DefTimeout = 60", "  DefDelay = 2"]
             for k in ("MaxSpans", "MaxNow", "TraceTimeout", "SendDelay", "SpanLimit", "MaxExpired", "ArriveUntil"):
